@@ -20,7 +20,7 @@ ANCHORS = ["decaylanguage.decay.decay:DecayChain.to_dict", "decaylanguage.decay.
            "decaylanguage.decay.decay:DaughtersDict.__init__", "decaylanguage.decay.decay:DaughtersDict.to_list"]
 WORKERS = {"quick": 4, "thorough": 16}
 WTESTS = {"groups": ['chain_to_dict', 'mode_to_dict'], "tests": ['tests/decay', 'tests/utils']}
-REQUIRED = {"branching-fractions-with-17-digits-or-tiny": 20, "sub-decay-without-daughters": 10, "same-decaying-twice-in-one-fs": 20, "same-decaying-two-depths": 20, "metadata-nested>=2": 20, "multiplicity-4": 20,
+REQUIRED = {"dictionary-handed-over-again-after-a-conversion-that-went-wrong:abandoned": 5, "dictionary-handed-over-again-after-a-conversion-that-went-wrong:no-fs-entry": 5, "branching-fractions-with-17-digits-or-tiny": 20, "sub-decay-without-daughters": 10, "same-decaying-twice-in-one-fs": 20, "same-decaying-two-depths": 20, "metadata-nested>=2": 20, "multiplicity-4": 20,
             "parser-chain": 20, "queried-before-to_dict": 50, "parser-chain-repeated-daughter": 5, "pdgid-all-ids": 1, "four-constructions": 100, "zero-or-negative-count-in-mapping": 10, "mode-edited-in-place-then-converted-again": 20, "mode-built-from-a-final-state-object-the-caller-edits-afterwards": 20,
             "C11.chain.to_dict.roundtrip": 300, "C11.mode.to_dict.roundtrip": 300}
 EXHAUSTIVE_NOTE = "all PDG IDs of the EvtGen table go through DecayMode.from_pdgids (sharded over workers); tree shapes <= 5 (quick) / 6 (thorough) enumerated"
